@@ -1016,8 +1016,9 @@ class CPCCA(BaseModelCrossSet):
 
     @staticmethod
     def _normalize_data(X, dim):
-        # Assume centered data
-        return X / X.std(dim)
+        # Assume centered data; ddof=1 matches the 1/(n-1) normalisation of the
+        # cross covariance so that a self-correlation is exactly one
+        return X / X.std(dim, ddof=1)
 
 
 class ComplexCPCCA(CPCCA):
